@@ -8,6 +8,7 @@ import (
 	"strings"
 
 	"github.com/tsawler/tabula/docx"
+	"github.com/tsawler/tabula/epubdoc"
 	"github.com/tsawler/tabula/htmldoc"
 	"github.com/tsawler/tabula/model"
 	"github.com/tsawler/tabula/odt"
@@ -777,6 +778,96 @@ func init() {
 				}
 			}
 			r.Check(okP, "document-tables:pptx", whyP, Bs(path))
+		}
+		// ---- slides: a numbered list with numbered sub-items and a bullet list with sub-items keep kind and depth
+		{
+			type li struct {
+				lvl     int
+				ordered bool
+				text    string
+			}
+			items := []li{{0, true, "num one"}, {1, true, "num one a"}, {1, true, "num one b"}, {0, true, "num two"}, {2, true, "num deep"},
+				{0, false, "dot one"}, {1, false, "dot one a"}, {0, false, "dot two"}}
+			var body strings.Builder
+			for _, it := range items {
+				bu := `<a:buChar char="&#8226;"/>`
+				if it.ordered {
+					bu = `<a:buAutoNum type="arabicPeriod"/>`
+				}
+				fmt.Fprintf(&body, `<a:p><a:pPr lvl="%d">%s</a:pPr><a:r><a:t>%s</a:t></a:r></a:p>`, it.lvl, bu, it.text)
+			}
+			slide := `<?xml version="1.0" encoding="UTF-8" standalone="yes"?><p:sld xmlns:a="http://schemas.openxmlformats.org/drawingml/2006/main" xmlns:p="http://schemas.openxmlformats.org/presentationml/2006/main" xmlns:r="http://schemas.openxmlformats.org/officeDocument/2006/relationships"><p:cSld><p:spTree><p:nvGrpSpPr><p:cNvPr id="1" name=""/><p:cNvGrpSpPr/><p:nvPr/></p:nvGrpSpPr><p:grpSpPr/><p:sp><p:nvSpPr><p:cNvPr id="2" name="Content 1"/><p:cNvSpPr/><p:nvPr><p:ph idx="1"/></p:nvPr></p:nvSpPr><p:spPr/><p:txBody><a:bodyPr/>` + body.String() + `</p:txBody></p:sp></p:spTree></p:cSld></p:sld>`
+			ms := mkPPTXSimple([]string{"placeholder"})
+			for i := range ms {
+				if strings.HasPrefix(ms[i].Name, "ppt/slides/") && strings.HasSuffix(ms[i].Name, ".xml") {
+					ms[i].Data = []byte(slide)
+				}
+			}
+			path := tmpFile(r, ".pptx", writeZip(ms))
+			why := ""
+			md, _, err := tabula.Open(path).ToMarkdown()
+			if err != nil {
+				why = err.Error()
+			}
+			lines := strings.Split(md, "\n")
+			for _, it := range items {
+				found := false
+				for _, ln := range lines {
+					if !strings.HasSuffix(strings.TrimSpace(ln), it.text) {
+						continue
+					}
+					found = true
+					t := strings.TrimLeft(ln, " \t")
+					isNum := len(t) > 1 && t[0] >= '0' && t[0] <= '9' && strings.Contains(t[:4], ".")
+					isDot := strings.HasPrefix(t, "- ") || strings.HasPrefix(t, "* ") || strings.HasPrefix(t, "+ ")
+					if it.ordered && !isNum || !it.ordered && !isDot {
+						why = fmt.Sprintf("item %q (ordered %v, level %d) is written %q: %q", it.text, it.ordered, it.lvl, ln, md)
+					}
+					if (len(ln)-len(t) > 0) != (it.lvl > 0) {
+						why = fmt.Sprintf("item %q of level %d is written %q: %q", it.text, it.lvl, ln, md)
+					}
+				}
+				if !found && why == "" {
+					why = fmt.Sprintf("item %q is not in the Markdown: %q", it.text, md)
+				}
+			}
+			r.Check(why == "", "document-lists:pptx", why, Bs(path))
+		}
+		// ---- books: chapters that end in a paragraph; no line of the Markdown may turn a paragraph into a heading
+		// (a line of dashes or equals signs directly under text is a setext heading underline)
+		{
+			path := tmpFile(r, ".epub", writeZip(mkEPUBSimple([]string{"first chapter closing words", "second chapter closing words", "third chapter closing words"})))
+			why := ""
+			for _, view := range []string{"reader", "toplevel"} {
+				var md string
+				var err error
+				if view == "reader" {
+					var rd *epubdoc.Reader
+					if rd, err = epubdoc.Open(path); err == nil {
+						md, err = rd.Markdown()
+						rd.Close()
+					}
+				} else {
+					md, _, err = tabula.Open(path).ToMarkdown()
+				}
+				if err != nil {
+					why = view + ": " + err.Error()
+					continue
+				}
+				lines := strings.Split(md, "\n")
+				for i := 1; i < len(lines); i++ {
+					t := strings.TrimSpace(lines[i])
+					if t != "" && (strings.Trim(t, "-") == "" || strings.Trim(t, "=") == "") && strings.TrimSpace(lines[i-1]) != "" {
+						why = fmt.Sprintf("%s: the line %q stands directly under %q, which makes that text a heading: %q", view, t, lines[i-1], md)
+					}
+				}
+				for k, w := range []string{"first chapter closing words", "second chapter closing words", "third chapter closing words"} {
+					if strings.Count(md, w) != 1 {
+						why = fmt.Sprintf("%s: the text of chapter %d is in the Markdown %d times", view, k+1, strings.Count(md, w))
+					}
+				}
+			}
+			r.Check(why == "", "document-setext:epub", why, Bs(path))
 		}
 		// ---- whole worksheets: the used range comes out as one pipe table, every cell where the sheet has it
 		{
